@@ -35,7 +35,7 @@ def gen_var(rng):
 
 
 def gen_reset(rng):
-    return {'id': rng.choice(IDS), 'order': rng.choice([0, 0, 1, 2, -1, 7]), 'rv': rng.choice(MATH), 'rvid': rng.choice(IDS), 'tv': rng.choice(MATH), 'tvid': rng.choice(IDS),
+    return {'id': rng.choice(IDS), 'order': rng.choice([0, 0, 1, 2, -1, 7, None, None]), 'rv': rng.choice(MATH), 'rvid': rng.choice(IDS), 'tv': rng.choice(MATH), 'tvid': rng.choice(IDS),
             'var': None if rng.random() < 0.2 else gen_var(rng), 'tvar': None if rng.random() < 0.2 else gen_var(rng)}
 
 
@@ -67,11 +67,13 @@ def sexp_var(v):
 
 
 def sexp_varopt(v):
-    return '(novar)' if v is None else sexp_var(v)
+    if v is None: return '(novar)'
+    if isinstance(v, int): return '(own %d)' % v
+    return sexp_var(v)
 
 
 def sexp_reset(r):
-    return '(reset %s %d %s %s %s %s %s %s)' % (H(r['id']), r['order'], H(r['rv']), H(r['rvid']), H(r['tv']), H(r['tvid']), sexp_varopt(r['var']), sexp_varopt(r['tvar']))
+    return '(reset %s %s %s %s %s %s %s %s)' % (H(r['id']), 'none' if r['order'] is None else str(r['order']), H(r['rv']), H(r['rvid']), H(r['tv']), H(r['tvid']), sexp_varopt(r['var']), sexp_varopt(r['tvar']))
 
 
 def sexp_comp(c):
@@ -93,7 +95,7 @@ def permute(rng, kind, e):
     def pu(u):
         rng.shuffle(u['children'])
     def pv(v):
-        if v and v['units']: pu(v['units'])
+        if v and not isinstance(v, int) and v['units']: pu(v['units'])
     def pc(c):
         rng.shuffle(c['vars']); rng.shuffle(c['resets']); rng.shuffle(c['kids'])
         for v in c['vars']: pv(v)
@@ -144,12 +146,14 @@ def sites(kind, e, path=()):
             out.append((p + ('var.units.drop',), lambda rng: v.__setitem__('units', None)))
             s_units(v['units'], p + ('var',))
     def s_reset(r, p):
-        out.append((p + ('reset.order',), lambda rng: r.__setitem__('order', r['order'] + rng.choice([1, -1, 5]))))
+        out.append((p + ('reset.order',), lambda rng: r.__setitem__('order', (r['order'] or 0) + rng.choice([1, -1, 5]))))
         for f, pool in (('id', IDS + ['zz']), ('rv', MATH + ['m']), ('rvid', IDS + ['zz']), ('tv', MATH + ['m']), ('tvid', IDS + ['zz'])):
             out.append((p + ('reset.' + f,), lambda rng, f=f, pool=pool: r.__setitem__(f, _other(rng, pool, r[f]))))
         for f in ('var', 'tvar'):
             if r[f] is None:
                 out.append((p + ('reset.%s.make' % f,), lambda rng, f=f: r.__setitem__(f, {'id': '', 'name': 'nv', 'initial': '', 'iface': '', 'units': None})))
+            elif isinstance(r[f], int):
+                out.append((p + ('reset.%s.drop' % f,), lambda rng, f=f: r.__setitem__(f, None)))
             else:
                 out.append((p + ('reset.%s.drop' % f,), lambda rng, f=f: r.__setitem__(f, None)))
                 s_var(r[f], p + ('reset.' + f,))
